@@ -4,6 +4,8 @@ import Tw.Proofs.Packet6Write
 import Tw.Model.Packet7
 import Tw.Proofs.Packet7Headers
 import Tw.Proofs.Packet7Write
+import Tw.Proofs.Packet6Chunks
+import Tw.Proofs.Packet7Chunks
 
 /-!
 # C05 — packet encoding and decoding are mutually inverse
@@ -196,5 +198,42 @@ example : Tw.Packet7.chunkHeaderVitalPack { h := { flags := 1, size := 48 }, seq
   decide
 
 end V7
+
+/-! ## chunk list ↔ chunk iterator -/
+
+/-- **0.6**: a list of chunks (each shorter than 1024 bytes, sequence numbers below 1024) serialised
+with `write_chunk` into one buffer and iterated with `ChunksIter::new(bytes, list.len())` comes back
+as exactly the same list — data, vital flag, sequence number, resend flag — with no warning at all
+(including the final `None` call), and the iteration ends within its fuel. -/
+theorem v6_chunk_list_iterator_roundtrip (cs : List (List UInt8 × Option (Nat × Bool)))
+    (hok : ∀ x ∈ cs, Tw.Packet6.ChunkOk x.1 x.2) (cap : Nat) (bs : List UInt8)
+    (hw : Tw.Packet6.writeChunkList cs cap [] = .ok bs) :
+    (((Iter.new bs cs.length).drain Tw.Packet6.codec).1.map fun ch => (ch.data, ch.vital)) = cs ∧
+    ((Iter.new bs cs.length).drain Tw.Packet6.codec).2.1 = [] ∧
+    ((Iter.new bs cs.length).drain Tw.Packet6.codec).2.2.2 = false :=
+  Tw.Packet6.chunkList_roundtrip cs hok cap bs hw
+
+/-- **0.7** (chunks shorter than 4096 bytes); true only with the D1 repair: before it every chunk whose
+size has bit 4 or 5 set produced `ChunkHeaderPadding` here. -/
+theorem v7_chunk_list_iterator_roundtrip (cs : List (List UInt8 × Option (Nat × Bool)))
+    (hok : ∀ x ∈ cs, Tw.Packet7.ChunkOk x.1 x.2) (cap : Nat) (bs : List UInt8)
+    (hw : Tw.Packet7.writeChunkList cs cap [] = .ok bs) :
+    (((Iter.new bs cs.length).drain Tw.Packet7.codec).1.map fun ch => (ch.data, ch.vital)) = cs ∧
+    ((Iter.new bs cs.length).drain Tw.Packet7.codec).2.1 = [] ∧
+    ((Iter.new bs cs.length).drain Tw.Packet7.codec).2.2.2 = false :=
+  Tw.Packet7.chunkList_roundtrip cs hok cap bs hw
+
+/-- a chunk list that fits is written (`write_chunk` fails only for lack of capacity) -/
+theorem v6_chunk_written_iff_fits (d : List UInt8) (v : Option (Nat × Bool)) (cap : Nat) (acc : List UInt8)
+    (hok : Tw.Packet6.ChunkOk d v) :
+    Tw.Packet6.writeChunk d v cap acc =
+      if acc.length + (Tw.Packet6.chunkHdr d v).length + d.length ≤ cap
+      then .ok (acc ++ Tw.Packet6.chunkHdr d v ++ d) else .capacity :=
+  Tw.Packet6.writeChunk_char d v cap acc hok
+
+-- non-vacuity: the D1 witness (a 16-byte non-vital chunk) and a vital resent chunk, in the model
+example : Tw.Packet7.writeChunkList [(List.replicate 16 0, none), ([7], some (1023, true))] 100 [] =
+    .ok ([0x00, 0x10] ++ List.replicate 16 0 ++ [0xc0, 0xc1, 0xff, 7]) := by decide
+example : Tw.Packet7.ChunkOk (List.replicate 16 0) none := ⟨by decide, by intro q r h; cases h⟩
 
 end Tw.Props.C05
